@@ -717,13 +717,21 @@ impl<Front: SocketHandler + std::fmt::Debug, L: ListenerHandler + L7ListenerHand
         }
 
         let mut iterations = 0;
+        // Arm the writer for the first pass, then again only when a backend
+        // delivered bytes: `writable()` gives the WRITABLE interest back once it
+        // has nothing left to write, or no window to write into. Arming it again
+        // unconditionally kept this loop spinning up to MAX_LOOP_ITERATIONS on
+        // every pass over every draining H2 connection.
+        let mut arm_writable = true;
         loop {
-            self.frontend
-                .readiness_mut()
-                .interest
-                .insert(Ready::WRITABLE);
-            if force_h2_write {
-                self.frontend.readiness_mut().signal_pending_write();
+            if arm_writable {
+                self.frontend
+                    .readiness_mut()
+                    .interest
+                    .insert(Ready::WRITABLE);
+                if force_h2_write {
+                    self.frontend.readiness_mut().signal_pending_write();
+                }
             }
             match self
                 .frontend
@@ -760,11 +768,12 @@ impl<Front: SocketHandler + std::fmt::Debug, L: ListenerHandler + L7ListenerHand
                 break;
             }
 
+            arm_writable = backend_read;
             iterations += 1;
             if iterations >= MAX_LOOP_ITERATIONS
                 || (!backend_read
                     && !self.frontend.has_pending_write()
-                    && !self.frontend.readiness().event.is_writable())
+                    && !self.frontend.readiness().filter_interest().is_writable())
             {
                 break;
             }
